@@ -109,7 +109,7 @@ def gen(rng, tier, index):
         ops.append({"op": "burst", "n": b, "shape": shape, "seed": rng.getrandbits(32)})
         total += b
     cfg = {"dut": kind, "scramble": scramble}
-    if kind == "layer" and scramble and rng.random() < 0.2:
+    if kind == "layer" and scramble and rng.random() < 0.12:
         # scrambling is switched on late: the run starts with this many words of pure logical idle (SKPs permitted) sent
         # unscrambled, then enable_scrambling rises -- without a COM in between, so the keystream position matters
         cfg["scramble_from"] = rng.randint(100, 420)
